@@ -156,6 +156,18 @@ func (p *Path) vpIntrinsic(caller *frame, fn *ssa.Function, name string, args []
 			p.abortf("vp_TokF64: not a float format token")
 		}
 		return t.Arg
+	case "vp_RegexpCompiles":
+		_, err := compileRx(p.strArg(args[0], "pattern"))
+		return smt.ConstBool(err == nil)
+	case "vp_RegexpFullMatch":
+		// reference semantics: pattern P matches ALL of s
+		pat := p.strArg(args[0], "pattern")
+		rx, err := compileRx("(?:" + pat + ")")
+		if err != nil {
+			p.abortf("vp_RegexpFullMatch: pattern does not compile: %v", err)
+		}
+		s := args[1].(Str)
+		return p.rxMatch(rx, s.bytesOrAbort(p), true, true)
 	case "vp_Stub":
 		// vp_Stub("full name of real function", replacement)
 		target := p.strArg(args[0], "target")
